@@ -187,9 +187,42 @@ theorem NE_strParseBool (s : String) (sp : Span) : NE (strParseBool s sp) := by
 theorem NE_strParseFloat (s : String) (sp : Span) : NE (strParseFloat s sp) := by
   unfold strParseFloat; repeat (first | exact NE_strconvErr _ _ _ _ | ne_step)
 
+theorem NE_jsonUnmodelled {α : Type} : NE (jsonUnmodelled : M α) := by unfold jsonUnmodelled; ne
+
+/-- `pjValue` / `pjElems` / `pjMembers` at one fuel. -/
+structure ParseJsonNE (n : Nat) : Prop where
+  val : ∀ cs, NE (pjValue n cs)
+  elems : ∀ cs acc, NE (pjElems n cs acc)
+  members : ∀ cs acc, NE (pjMembers n cs acc)
+
+theorem parseJsonNE : ∀ n, ParseJsonNE n := by
+  intro n
+  induction n with
+  | zero =>
+    constructor <;> intros <;> simp only [pjValue, pjElems, pjMembers] <;> exact NE_jsonUnmodelled
+  | succ n ih =>
+    refine ⟨?_, ?_, ?_⟩
+    · intro cs
+      simp only [pjValue]
+      repeat (first | exact ih.val _ | exact ih.elems _ _ | exact ih.members _ _ | exact NE_jsonUnmodelled | ne_lib)
+    · intro cs acc
+      simp only [pjElems]
+      repeat (first | exact ih.val _ | exact ih.elems _ _ | exact ih.members _ _ | exact NE_jsonUnmodelled | ne_lib)
+    · intro cs acc
+      simp only [pjMembers]
+      repeat (first | exact ih.val _ | exact ih.elems _ _ | exact ih.members _ _ | exact NE_jsonUnmodelled | ne_lib)
+
+theorem NE_strParseJson (s : String) : NE (strParseJson s) := by
+  unfold strParseJson
+  repeat (first | exact (parseJsonNE _).val _ | exact NE_jsonUnmodelled | ne_lib)
+
+theorem NE_toJsonM (indent : Bool) (v : Val) : NE (toJsonM indent v) := by unfold toJsonM; ne
+
+theorem NE_strCompareLev (s : String) (vs : List Val) : NE (strCompareLev s vs) := by unfold strCompareLev; ne
+
 theorem NE_strMember (s : String) (n : String) (vs : List Val) (sp : Span) : NE (strMember s n vs sp) := by
   unfold strMember
-  repeat (first | exact NE_strSubstring _ _ _ | exact NE_strReplace _ _ | exact NE_strSplit _ _ | exact NE_strToUpper _ | exact NE_strToLower _ | exact NE_strParseInt _ _ | exact NE_strParseBool _ _ | exact NE_strParseFloat _ _ | ne_step)
+  repeat (first | exact NE_strSubstring _ _ _ | exact NE_strReplace _ _ | exact NE_strSplit _ _ | exact NE_strToUpper _ | exact NE_strToLower _ | exact NE_strParseInt _ _ | exact NE_strParseBool _ _ | exact NE_strParseFloat _ _ | exact NE_strParseJson _ | exact NE_strCompareLev _ _ | ne_step)
 
 theorem NE_listSort (a : Nat) (xs : List Val) : NE (listSort a xs) := by
   unfold listSort
@@ -206,7 +239,7 @@ theorem NE_typeKindNameM (v : Val) : NE (typeKindNameM v) := by
 set_option maxHeartbeats 1000000 in
 theorem NE_callMember (recv : Val) (n : String) (vs : List Val) (sp : Span) : NE (callMember recv n vs sp) := by
   unfold callMember
-  repeat (first | exact NE_floatMember _ _ _ | exact NE_strMember _ _ _ _ | exact NE_listSort _ _ | exact NE_typeKindNameM _ | ne_lib)
+  repeat (first | exact NE_floatMember _ _ _ | exact NE_strMember _ _ _ _ | exact NE_listSort _ _ | exact NE_typeKindNameM _ | exact NE_toJsonM _ _ | ne_lib)
 
 theorem NE_castIncompat {α : Type} (v : Val) (t : Ty) (path : String) (sp : Span) :
     NE (castIncompat v t path sp : M α) := by
